@@ -6,8 +6,8 @@
    pytezos cannot compute the static result type of MAP over an EMPTY list (known finding
    "empty-map-retype": it returns the source list with its old class), so the simulation and preservation
    theorems are proved for [typecheck_nr := typecheck_gen true] and refuted for [typecheck].
-   [strict = true] restricts three things: MAP bodies (lists and maps) keep the element/value type; APPLY does not capture a
-   value whose type mentions set or map. Everything else in Instr.v is in the proved fragment. *)
+   [strict = true] restricts one thing: MAP bodies (on lists and on maps) keep the element/value type. Everything else in
+   Instr.v is in the proved fragment. *)
 From Coq Require Import List ZArith Bool Arith.
 From PV Require Import Base.Bytes Michelson.Instr.
 Import ListNotations.
@@ -105,7 +105,7 @@ Fixpoint has_literal (t : ty) : bool :=
   | _ => true
   end.
 
-(* instructions without sub-programs. [strict = true]: the proved fragment (only APPLY differs: no captured set/map) *)
+(* instructions without sub-programs (the same rules in both modes) *)
 Definition tc_simple (strict : bool) (i : instr) (s : sty) : option sty :=
   match i with
   | I_EXEC => match s with
@@ -114,7 +114,7 @@ Definition tc_simple (strict : bool) (i : instr) (s : sty) : option sty :=
               end
   | I_APPLY => match s with
                | a :: TLambda (TPair a' b) c :: r =>
-                   if ty_eqb a a' && has_literal a && negb (strict && has_coll a) then Some (TLambda b c :: r) else None
+                   if ty_eqb a a' && has_literal a && wf_ty a then Some (TLambda b c :: r) else None
                | _ => None
                end
   | I_EMPTY_SET k => if comparable k then Some (TSet k :: s) else None
